@@ -1,8 +1,7 @@
 package main
 
 // Fourth output (-out-fn): a TRANSLATOR, not a text comparison.  The decision expressions of the parser core
-// (lenCheck of the five sequence kinds, SepBy's value/separator test, the curtailment test, the reuse test of
-// the result cache, the context reset test, SetError's test, isWordCharacter, Remaining, IsEOF, the file-set
+// (lenCheck of the five sequence kinds, SepBy's value/separator test, isWordCharacter, Remaining, IsEOF, the file-set
 // advance) are translated from the Go AST into Lean functions over Nat / Bool.  Lean then proves that the
 // model's definitions equal these functions (Proofs/FactsTie.lean), so a semantically different expression
 // breaks a theorem while a harmless rewrite (operand order, an equivalent comparison) does not.
@@ -168,22 +167,10 @@ func writeFnFacts(path string) error {
 	add("lenCheckSepBy", "(allowEmpty : Bool) (len : Nat)", "bool", "sep_by.go lenCheck", lenCheckExpr(sepf, "newSepBy"), lv)
 	add("sepByIsValue", "(i : Nat)", "bool", "sep_by.go: index i gets the value parser",
 		findIfCond(findFunc(sepf, "newSepBy"), func(c ast.Expr, _ *ast.IfStmt) bool { return true }), map[string]string{"i": "i"})
-	add("seqResets", "(rpos pos : Nat)", "bool", "seq.go parseNext: the left-recursion context is reset",
-		findIfCond(findMethod(seq, "sequence", "parseNext"), func(c ast.Expr, is *ast.IfStmt) bool {
-			return strings.Contains(norm(is.Body), "data.EmptyIntMap")
-		}), map[string]string{"node.ReaderPos()": "rpos", "pos": "pos"})
-	add("curtails", "(cnt rem : Nat)", "bool", "memoize.go: the call is curtailed",
-		findIfCond(findFunc(parseFile("combinator/memoize.go"), "Memoize"), func(c ast.Expr, _ *ast.IfStmt) bool {
-			return strings.Contains(norm(c), "leftRecCtx.Get(")
-		}), map[string]string{"leftRecCtx.Get(parserIndex)": "cnt", "ctx.Reader().Remaining(pos)": "rem"})
-	add("cacheRejects", "(stored cur : Nat)", "bool", "result_cache.go: a stored result is NOT reusable because of this key",
-		findIfCond(findMethod(parseFile("parsley/result_cache.go"), "ResultCache", "Get"), func(c ast.Expr, _ *ast.IfStmt) bool {
-			return strings.Contains(norm(c), "LeftRecCtx.Get(")
-		}), map[string]string{"result.LeftRecCtx.Get(key)": "stored", "leftRecCtx.Get(key)": "cur"})
-	add("setErrorTakes", "(noOld : Bool) (newPos oldPos : Nat)", "bool", "context.go SetError: the new error replaces the recorded one",
-		findIfCond(findMethod(parseFile("parsley/context.go"), "Context", "SetError"), func(c ast.Expr, _ *ast.IfStmt) bool {
-			return strings.Contains(norm(c), "c.err")
-		}), map[string]string{"c.err==nil": "b:noOld", "err.Pos()": "newPos", "c.err.Pos()": "oldPos"})
+	// (the context-reset test of parseNext, Memoize's curtailment test, the reuse test of ResultCache.Get and SetError's test
+	// were translated here as single expressions, found by the text of the `if` they stood in: all four functions are
+	// translated WHOLE by progcore*.go and tied by Props/C01P.lean (seq_parse_sim, tie_Memoize, tie_Get, tie_SetError), which
+	// subsumes these and, unlike a search for one `if`, survives a restructuring of the function)
 	rd := parseFile("text/reader.go")
 	add("isWordCharacter", "(b : Nat)", "bool", "reader.go isWordCharacter", singleReturn(findFunc(rd, "isWordCharacter")), map[string]string{"b": "b"})
 	add("remaining", "(len pos off : Nat)", "nat", "reader.go Remaining", singleReturn(findMethod(rd, "Reader", "Remaining")),
